@@ -884,5 +884,7 @@ func buildC03(seed int64) []*cell {
 		out = append(out, famNamed(m, vals)...)
 	}
 
+	out = append(out, famRetyped()...)
+
 	return out
 }
